@@ -34,6 +34,10 @@ func H06_shutdown() {
 		e.tty.cb() // a pending window-size notification
 	}
 	h06Feed(e, chunks, size)
+	if vsymChoice("readerr", 2) == 1 {
+		close(e.tty.inCh) // the tty read fails from now on (io.EOF)
+		vsymRunBlocked()
+	}
 	vsymNote("queued events", len(e.t.eventQ))
 	vsymNote("queued chunks", len(e.t.keychan))
 	switch vsymChoice("end", 3) {
